@@ -201,6 +201,8 @@ def values_lt_eq(ex, x, y):
         return seq_lt_eq(ex, x.fields, y.fields)
     if isinstance(x, VecV) and isinstance(y, VecV):
         return seq_lt_eq(ex, x.items, y.items)
+    if isinstance(x, BitVecV) and isinstance(y, BitVecV):
+        return seq_lt_eq(ex, x.bits, y.bits)
     if hasattr(x, 'py_lt_eq'): return x.py_lt_eq(ex, y)
     raise Unmodelled(f'ordering of {type(x).__name__} and {type(y).__name__}')
 
@@ -1071,6 +1073,27 @@ def collect_into(ex, i, target):
     raise Unmodelled(f'collect into {t}')
 
 
+def I_unzip(ex, n, a):
+    i = it(a[0])
+    if i is None: return NotImplemented
+    m = re.search(r'unzip::<(.*)>$', n)
+    parts = []
+    if m:
+        depth = 0; cur = ''
+        for c in m.group(1):
+            if c in '<([': depth += 1
+            elif c in '>)]': depth -= 1
+            if c == ',' and depth == 0: parts.append(cur.strip()); cur = ''
+            else: cur += c
+        parts.append(cur.strip())
+    xs = []; ys = []
+    for p in i:
+        xs.append(p.fields[0]); ys.append(p.fields[1])
+    ta = parts[2] if len(parts) >= 4 else 'std::vec::Vec<_>'
+    tb = parts[3] if len(parts) >= 4 else 'std::vec::Vec<_>'
+    return tup(collect_into(ex, IterV(iter(xs)), ta), collect_into(ex, IterV(iter(ys)), tb))
+
+
 def I_extend(ex, n, a):
     v = recv(a)
     if isinstance(v, VecV):
@@ -1554,7 +1577,7 @@ METHODS = {
     'zip': [I_zip], 'chain': [I_chain], 'rev': [I_rev], 'take': [O_take], 'skip': [I_skip], 'cloned': [O_cloned], 'copied': [O_copied], 'peekable': [I_peekable], 'by_ref': [I_by_ref],
     'fold': [I_fold], 'for_each': [I_for_each], 'count': [I_count], 'sum': [I_sum], 'all': [B_all], 'any': [B_any], 'find': [I_find], 'find_map': [I_find_map], 'position': [I_position],
     'nth': [I_nth], 'max_by_key': [I_max_by_key], 'min_by_key': [I_min_by_key], 'max': [I_max, C_max], 'min': [I_min, C_min], 'max_by': [I_max_by], 'min_by': [I_min_by],
-    'collect': [I_collect], 'from_iter': [I_collect], 'extend': [I_extend],
+    'unzip': [I_unzip], 'collect': [I_collect], 'from_iter': [I_collect], 'extend': [I_extend],
     'unwrap': [O_unwrap], 'expect': [O_expect], 'unwrap_err': [O_unwrap_err], 'is_some': [O_is_some], 'is_none': [O_is_none], 'is_ok': [O_is_ok], 'is_err': [O_is_err],
     'as_ref': [O_as_ref], 'as_mut': [O_as_mut], 'as_deref': [O_as_deref], 'as_deref_mut': [O_as_deref], 'replace': [O_replace],
     'branch': [T_branch], 'from_residual': [T_from_residual],
